@@ -1,7 +1,8 @@
 import Bptk.Core.C18
 /-! Line-protocol driver for the C18 interleaving model:  `lake env lean --run Drive/C18.lean < lines`
 
-`cfg a b d e f`            (0/1: lockIsTestAndSet runStepTakesLock streamUnlocksOnDone unlockOnError unlockOnClientGone)
+`cfg a b d e f g`          (0/1: lockIsTestAndSet runStepTakesLock streamUnlocksOnDone unlockOnError unlockOnClientGone
+                            refusalKeepsLock)
 `run <stop> <kinds> <sched>`  kinds: comma list of `p` (run-step) | `r<n>` (run-steps n) | `s` (stream);
                               sched: comma list of `<tid><g|f|x>` (go | fail | gone) or `-`
 reply: `<labels>|<st:res:msgs:holds:pc per thread, ';'>|clock=<n>;lock=<0|1>;produced=<list>` -/
@@ -39,10 +40,10 @@ def b01 (s : String) : Option Bool := if s == "1" then some true else if s == "0
 
 def stepLine (c : Cfg) (line : String) : Cfg × String :=
   match line.trimAscii.toString.splitOn " " with
-  | ["cfg", a, b, d, e, f] =>
-      match b01 a, b01 b, b01 d, b01 e, b01 f with
-      | some a, some b, some d, some e, some f => (⟨a, b, d, e, f⟩, "ok")
-      | _, _, _, _, _ => (c, "bad-op")
+  | ["cfg", a, b, d, e, f, g] =>
+      match b01 a, b01 b, b01 d, b01 e, b01 f, b01 g with
+      | some a, some b, some d, some e, some f, some g => (⟨a, b, d, e, f, g⟩, "ok")
+      | _, _, _, _, _, _ => (c, "bad-op")
   | ["run", stop, kinds, sched] =>
       match stop.toNat?, (kinds.splitOn ",").mapM parseKind,
             (if sched == "-" then some [] else (sched.splitOn ",").mapM parseAct) with
@@ -61,4 +62,4 @@ partial def loop (h : IO.FS.Stream) (c : Cfg) : IO Unit := do
   IO.println out
   loop h c'
 
-def main : IO Unit := do loop (← IO.getStdin) ⟨true, true, true, true, true⟩
+def main : IO Unit := do loop (← IO.getStdin) ⟨true, true, true, true, true, true⟩
